@@ -137,6 +137,27 @@ def run(ctx):
         else:
             ctx.observe("generic-path-kmer-code-exceeds-int64:|A|^k>=2^63", c)
         kenc = res.encoding
+        # single elements of the result: res[i, j] is the j-th window of sequence i and renders its text; a j past the last window of a row is refused
+        cells = [(i_, j_) for i_, ws in enumerate(exp_w) for j_ in range(len(ws))]
+        if cells and len(alphabet) ** k < 2 ** 63:
+            for i_, j_ in [cells[0], cells[-1], cells[len(cells) // 2]]:
+                el = res[i_, j_]
+                txt_ = el.to_string() if hasattr(el, "to_string") else str(el)
+                ctx.check("kmer:to_string", txt_ == exp_w[i_][j_], "kmer-element/text", "get_kmers(...)[%d, %d] renders %r, the window reads %r" % (i_, j_, txt_, exp_w[i_][j_]), dict(c, cell=[i_, j_], got=txt_, expected=exp_w[i_][j_]), (ename, exp_w[i_][j_], "el"))
+            short = [i_ for i_, ws in enumerate(exp_w[:-1]) if len(exp_w) >= 2]
+            if short:
+                i_ = short[0]
+                try:
+                    beyond = res[i_, len(exp_w[i_])]
+                    bt_ = beyond.to_string() if hasattr(beyond, "to_string") else str(beyond)
+                    ctx.check("get_kmers:count", False, "kmer-element/lookup-past-the-last-window-of-a-row-answered", "get_kmers(...)[%d, %d] (row %d has %d windows) returned %r" % (i_, len(exp_w[i_]), i_, len(exp_w[i_]), bt_), dict(c, row=i_, got=bt_), (ename, tuple(rows), k, "beyond"))
+                except IndexError:
+                    ctx.judged("get_kmers:count", (ename, tuple(rows), k, "beyond"))
+                except Exception as e:
+                    from bnpmon.ctx import originates_in_library
+                    if not originates_in_library(e):
+                        raise
+                    ctx.judged("get_kmers:count", (ename, tuple(rows), k, "beyond"))
         flat = [(code, w) for cs, ws in zip(codes, exp_w) for code, w in zip(cs, ws)][:6]
         if len(alphabet) ** k < 2 ** 63:
             for code, wtxt in flat:
@@ -299,6 +320,11 @@ def run(ctx):
         with np.errstate(divide="ignore"):
             pwm = PWM(np.log(np.array(mat, dtype=float)), alphabet)
             logm = np.log(np.array(mat, dtype=float))
+            if c.get("background"):
+                # the other constructor: probabilities per letter plus a background given as a dict, its keys written in another order than the matrix rows
+                bg = c["background"]
+                pwm = PWM.from_dict({ch: list(mat[i]) for i, ch in enumerate(alphabet)}, background=dict(sorted(bg.items(), key=lambda kv: c["background_order"].index(kv[0]))))
+                logm = logm - np.log(np.array([bg[ch] for ch in alphabet]))[:, None]
         seqs = bnp.as_encoded_array(rows) if ename == "ascii" else bnp.as_encoded_array(rows, encs[ename])
         seqs, rows = selected(seqs, rows, c)
         if ename in ("ACTGEncoding", "ACGTnEncoding"):
@@ -377,7 +403,11 @@ def run(ctx):
             al = "ACGT"
             rows2 = gen_rows(rng, al, w2)
             mat = [[rng.choice([0.0, 0.1, 0.25, 0.5, 1.0]) for _ in range(w2)] for _ in al]
-            ctx.run_case(case_motif, {"fn": "get_motif_scores", "enc": rng.choice(["ascii", "ACGTEncoding", "ACTGEncoding", "ACGTnEncoding"]), "rows": rows2, "matrix": mat, "alphabet": al, "select": gen_select(rows2, w2)})
+            mcase = {"fn": "get_motif_scores", "enc": rng.choice(["ascii", "ACGTEncoding", "ACTGEncoding", "ACGTnEncoding"]), "rows": rows2, "matrix": mat, "alphabet": al, "select": gen_select(rows2, w2)}
+            if rng.random() < 0.3:
+                mcase["background"] = dict(zip(al, rng.choice([[0.1, 0.2, 0.3, 0.4], [0.4, 0.1, 0.1, 0.4], [0.25, 0.25, 0.3, 0.2]])))
+                mcase["background_order"] = rng.sample(list(al), len(al))
+            ctx.run_case(case_motif, mcase)
         else:
             kmers = ["".join(rng.choice(alphabet) for _ in range(w)) for _ in range(rng.randint(1, 4))]
             ctx.run_case(case_kmer_encoding, {"fn": "KmerEncoding", "enc": ename, "k": w, "kmers": kmers})
